@@ -442,3 +442,132 @@ func localCell(v ssa.Value) ssa.Value {
 	}
 	return nil
 }
+
+// retResults resolves a return's operands through the defer spill: in functions with defers and named
+// results go/ssa stores the results into their cells, runs the defers and returns loads of the cells.
+func retResults(ret *ssa.Return) []ssa.Value {
+	out := make([]ssa.Value, len(ret.Results))
+	b := ret.Block()
+	for i, r := range ret.Results {
+		out[i] = r
+		u, ok := r.(*ssa.UnOp)
+		if !ok || u.Op != token.MUL {
+			continue
+		}
+		cell, ok := u.X.(*ssa.Alloc)
+		if !ok {
+			continue
+		}
+		// last store to the cell in this block before the load
+		for j := idxOf(u) - 1; j >= 0; j-- {
+			if st, ok := b.Instrs[j].(*ssa.Store); ok && st.Addr == cell {
+				out[i] = st.Val
+				break
+			}
+		}
+	}
+	return out
+}
+
+// panicMessage extracts the constant text of a panic argument (string constant or the format of a
+// fmt.Errorf / fmt.Sprintf call), used as a position-independent key.
+func panicMessage(p *ssa.Panic) string {
+	v := p.X
+	for i := 0; i < 6; i++ {
+		switch x := v.(type) {
+		case *ssa.MakeInterface:
+			v = x.X
+			continue
+		case *ssa.ChangeInterface:
+			v = x.X
+			continue
+		case *ssa.Const:
+			if s, ok := constString(x); ok {
+				return s
+			}
+		case *ssa.Call:
+			n := calleeName(x.Common())
+			if (n == "fmt.Errorf" || n == "fmt.Sprintf") && len(x.Call.Args) > 0 {
+				if s, ok := constString(x.Call.Args[0]); ok {
+					return s
+				}
+			}
+		case *ssa.BinOp:
+			if s, ok := constString(x.X); ok {
+				return s
+			}
+		}
+		break
+	}
+	return ""
+}
+
+// valueOrigin gives a short, position-independent description of where a value comes from.
+func valueOrigin(v ssa.Value) string {
+	for i := 0; i < 8; i++ {
+		switch x := v.(type) {
+		case *ssa.Extract:
+			if call, ok := x.Tuple.(*ssa.Call); ok {
+				return fmt.Sprintf("result#%d of %s", x.Index, calleeName(call.Common()))
+			}
+			if l, ok := x.Tuple.(*ssa.Lookup); ok {
+				return "lookup in " + valueOrigin(l.X)
+			}
+			if _, ok := x.Tuple.(*ssa.Next); ok {
+				return "range element"
+			}
+			return "extract"
+		case *ssa.Call:
+			return "result of " + calleeName(x.Common())
+		case *ssa.Lookup:
+			k := ""
+			if s, ok := constString(x.Index); ok {
+				k = "[" + s + "]"
+			}
+			return "map element" + k + " of " + valueOrigin(x.X)
+		case *ssa.UnOp:
+			if x.Op == token.MUL {
+				if f := loadedField(x); f != nil {
+					return "field " + f.Name()
+				}
+				switch y := x.X.(type) {
+				case *ssa.Alloc:
+					return "local " + y.Comment
+				case *ssa.FreeVar:
+					return "captured " + y.Name()
+				case *ssa.IndexAddr:
+					return "element of " + valueOrigin(y.X)
+				case *ssa.Global:
+					return "global " + y.Name()
+				}
+				return "load"
+			}
+			return "unop"
+		case *ssa.Parameter:
+			return "param " + x.Name()
+		case *ssa.FreeVar:
+			return "captured " + x.Name()
+		case *ssa.Field:
+			if f := fieldValVar(x); f != nil {
+				return "field " + f.Name()
+			}
+		case *ssa.Phi:
+			return "phi " + x.Comment
+		case *ssa.MakeInterface:
+			v = x.X
+			continue
+		case *ssa.ChangeInterface:
+			v = x.X
+			continue
+		case *ssa.ChangeType:
+			v = x.X
+			continue
+		case *ssa.TypeAssert:
+			return "assertion on " + valueOrigin(x.X)
+		case *ssa.Const:
+			return "const"
+		}
+		break
+	}
+	return fmt.Sprintf("%T", v)
+}
